@@ -363,7 +363,7 @@ func exclListFamily(rep string) bool {
 			}
 		}
 		// callers that iterate or sort the very slice those caches hand out
-		for _, f := range []string{"filesystem.hashListAsMap", "filesystem.(*ObjectStorage).HashesWithPrefix", "plumbing.HashSlice."} {
+		for _, f := range []string{"filesystem.hashListAsMap", "filesystem.(*ObjectStorage).HashesWithPrefix", "plumbing.HashSlice.", "filesystem.(*objectsIter).", "filesystem.(*ObjectStorage).IterEncodedObjects"} {
 			if strings.Contains(h, f) {
 				ok = true
 			}
